@@ -1976,7 +1976,8 @@ def limit_cases(rng, tier):
     nargs = 65535 if tier == 'thorough' else 300
     cases.append({'ns': 'LimA', 'version': '1.0',
                   'gir': ns_text('LimA', [simple_fn('many', nargs, closure=(127, 126)), simple_fn('few', 128, closure=(126, 127))]),
-                  'deps': [], 'dep_ids': [], 'shlib_option': None, 'origin': 'limit:n_arguments=%d closure=127' % nargs})
+                  'deps': [], 'dep_ids': [], 'shlib_option': None, 'origin': 'limit:n_arguments=%d closure=127' % nargs,
+                  'twice': tier != 'thorough'})     # determinism is judged on the thousands of ordinary documents
     nmemb = 65535 if tier == 'thorough' else 700
     fields = [E('field', [('name', 'f%d' % i), ('writable', '1')], [E('type', [('name', 'guint8')])]) for i in range(nmemb)]
     vals = [E('member', [('name', 'v%d' % i), ('value', str(i)), ('c:identifier', 'V%d' % i)]) for i in range(nmemb)]
@@ -1987,7 +1988,8 @@ def limit_cases(rng, tier):
     cases.append({'ns': 'LimM', 'version': '1.0',
                   'gir': ns_text('LimM', [E('record', [('name', 'R')], fields), E('enumeration', [('name', 'En'), ('c:type', 'En')], vals)]
                                  + ifs + [cls]),
-                  'deps': [], 'dep_ids': [], 'shlib_option': None, 'origin': 'limit:n_fields/n_values=%d n_interfaces=%d' % (nmemb, len(ifs))})
+                  'deps': [], 'dep_ids': [], 'shlib_option': None, 'origin': 'limit:n_fields/n_values=%d n_interfaces=%d' % (nmemb, len(ifs)),
+                  'twice': tier != 'thorough'})
     long_s = 'S' * (70000 if tier == 'thorough' else 9000)
     f = simple_fn('n' + 'x' * 2000, 1)
     f.children.insert(0, E('attribute', [('name', 'long'), ('value', long_s)]))
